@@ -545,15 +545,55 @@ func (r *Run) sprintfV(f StrV, args []Value) StrV {
 	if f.isConcrete() {
 		return r.sprintf(f.concrete(), args)
 	}
-	if len(args) != 0 || !f.hasAtom() {
-		panic(unsupported("Sprintf with a symbolic format and operands"))
+	if len(args) == 0 && f.hasAtom() {
+		if r.branch(mk("str.contains", sortBool, f.term(), mkStrLit("%"))) {
+			x := r.fresh("s_fmt", sortStr)
+			r.pc = append(r.pc, mkNot(mkEq(x, f.term())))
+			return StrV{Segs: []Seg{{Atom: x}}}
+		}
+		return f
 	}
-	if r.branch(mk("str.contains", sortBool, f.term(), mkStrLit("%"))) {
-		x := r.fresh("s_fmt", sortStr)
-		r.pc = append(r.pc, mkNot(mkEq(x, f.term())))
-		return StrV{Segs: []Seg{{Atom: x}}}
+	// a format put together from literal pieces and symbolic ones (user-supplied strings in format position), with
+	// operands: the literal pieces are interpreted; a symbolic piece without '%' is copied; one that contains '%'
+	// makes everything from there on some other text (its verbs consume operands, report missing ones, ...)
+	out := StrV{}
+	rest := args
+	for si, g := range f.Segs {
+		switch {
+		case g.Atom != nil:
+			if r.branch(mk("str.contains", sortBool, g.Atom, mkStrLit("%"))) {
+				return concatStr(out, StrV{Segs: []Seg{{Atom: r.fresh("s_fmt", sortStr)}}})
+			}
+			out = concatStr(out, StrV{Segs: []Seg{g}})
+		case g.Byte != nil:
+			if r.branch(mkEq(g.Byte, mkBV('%', 8))) {
+				return concatStr(out, StrV{Segs: []Seg{{Atom: r.fresh("s_fmt", sortStr)}}})
+			}
+			out = concatStr(out, StrV{Segs: []Seg{g}})
+		default:
+			if strings.HasSuffix(g.Lit, "%") && !strings.HasSuffix(g.Lit, "%%") && si+1 < len(f.Segs) {
+				panic(unsupported("Sprintf: a verb split between a literal and a symbolic piece of the format"))
+			}
+			n := 0
+			for i := 0; i+1 < len(g.Lit); i++ {
+				if g.Lit[i] == '%' {
+					if g.Lit[i+1] != '%' {
+						n++
+					}
+					i++
+				}
+			}
+			if n > len(rest) {
+				panic(unsupported("Sprintf: more verbs than operands"))
+			}
+			out = concatStr(out, r.sprintf(g.Lit, rest[:n]))
+			rest = rest[n:]
+		}
 	}
-	return f
+	if len(rest) > 0 {
+		panic(unsupported("Sprintf: operands left over (%%!(EXTRA ...))"))
+	}
+	return out
 }
 
 func (r *Run) sprintf(f string, args []Value) StrV {
